@@ -161,7 +161,7 @@ def parse_tr(lst):
     return ops
 
 
-EXACT = {1, 2, 3, 4, 5, 10, 11, 12, 13, 15}
+EXACT = {1, 2, 3, 4, 5, 10, 11, 12, 13, 15, 20, 21}
 MODEL_ONLY = {8, 17}
 IMPL_ONLY = {18}
 POINTS = {6, 16}
